@@ -12,7 +12,7 @@ EXTENDS Txtar, TLC, Json
 CONSTANTS MaxFiles, Emit
 
 Comments == { <<>>, <<99, 10>>, <<45,45,32,45,45,10>>, <<13,10>>, <<45,45,32,32,45,45,10>>, <<32,45,45,32,120,32,45,45,10>> }
-Names    == { <<120>>, <<97,47,98>>, <<120,32,121>>, <<45>>, <<45,45>>, <<120,13,121>>, <<97,37,115,37>> }   \* the last one: "a%s%" (means something to a formatter)
+Names    == { <<120>>, <<97,47,98>>, <<120,32,121>>, <<45>>, <<45,45>>, <<120,13,121>>, <<97,37,115,37>>, <<97,92,98>> }   \* the last two: "a%s%" (means something to a formatter), "a\b" (a separator elsewhere)
 Datas    == { <<>>, <<120,10>>, <<10>>, <<45,45,32,120,10>>, <<32,45,45,32,120,32,45,45,10>>,
               <<45,45,120,32,45,45,10>>, <<62,45,45,32,120,32,45,45,10>>, <<120,13,10>>,
               <<45,45,32,45,45,10>>, <<45,45,32,32,45,45,10>>, <<45,45,32,120,45,45,10>>, <<120,10,10,121,10>> }
